@@ -123,6 +123,12 @@ CORPUS = [
     ("C15", "pass", "update: closed test through isClosed()", "sess.go",
      "\tselect {\n\tcase <-s.die:\n\tdefault:\n\t\ts.mu.Lock()\n\t\tinterval := s.kcp.flush(IKCP_FLUSH_FULL)",
      "\tif s.isClosed() {\n\t\treturn\n\t}\n\t{\n\t\ts.mu.Lock()\n\t\tinterval := s.kcp.flush(IKCP_FLUSH_FULL)"),
+    ("C15", "pass", "postProcess: die case re-armed at the top of the request arm as well", "sess.go",
+     "\t\t\tbuf := req.buffer\n\t\t\toob := req.oob\n", "\t\t\tbuf := req.buffer\n\t\t\toob := req.oob\n\t\t\tchDie = s.die // re-enable die channel (moved up)\n"),
+    ("C11", "pass", "packetInput: backlog test through a local", "sess.go",
+     "\tif len(l.chAccepts) >= cap(l.chAccepts) {\n\t\treturn\n\t}", "\tfull := len(l.chAccepts) >= cap(l.chAccepts)\n\tif full {\n\t\treturn\n\t}"),
+    ("C11", "violation", "packetInput: backlog test off by one slot too many", "sess.go",
+     "\tif len(l.chAccepts) >= cap(l.chAccepts) {\n\t\treturn\n\t}", "\tif len(l.chAccepts) > cap(l.chAccepts) {\n\t\treturn\n\t}"),
     # --- C14 (atomic-only counters)
     ("C14", "violation", "Input: InSegs bumped with a plain +=", "kcp.go",
      "\tatomic.AddUint64(&DefaultSnmp.InSegs, inSegs)", "\tDefaultSnmp.InSegs += inSegs"),
